@@ -350,4 +350,13 @@ theorem drawTo_same (s : Screen) (v : View) (attr : Nat) (ops : Ops) :
   simp only [drawTo, setPg, if_true]
 
 
+theorem setPg_setPg (pages : Nat → Page) (g : Nat) (p q : Page) :
+    setPg (setPg pages g p) g q = setPg pages g q := by
+  funext i; simp only [setPg]; split <;> rfl
+
+theorem setPg_self (pages : Nat → Page) (g : Nat) : setPg pages g (pages g) = pages := by
+  funext i; simp only [setPg]; split
+  · rename_i h; rw [h]
+  · rfl
+
 end PcbV.ViewportLemmas
